@@ -22,7 +22,9 @@ pub fn parse(raw: &[u8]) -> Result<IndexMap<String, Vec<u8>>> {
     // Validate magic number.
     let magic = cursor.read_u32::<BigEndian>()?;
     if magic != MAGIC {
-        todo!()
+        return Err(crate::ArchiveError::OtherError(
+            "Bad magic number in pack archive.".to_string(),
+        ));
     }
 
     // Retrieve the file count.
@@ -40,6 +42,9 @@ pub fn parse(raw: &[u8]) -> Result<IndexMap<String, Vec<u8>>> {
     for entry in entry_metadata {
         cursor.set_position(entry.name_address as u64);
         let name = cursor.read_shift_jis_string()?;
+        if entry.file_address as u64 + entry.file_size_unpadded as u64 > raw.len() as u64 {
+            return Err(crate::ArchiveError::ArchiveTooSmall);
+        }
         cursor.set_position(entry.file_address as u64);
         let mut contents = vec![0; entry.file_size_unpadded as usize];
         cursor.read_exact(&mut contents)?;
